@@ -1,6 +1,6 @@
 (* Executable comparison of the source-translated store methods with the model's entry-level functions on a fixed
    lattice; used only when Store/GenStoreTie.v no longer compiles.  Must not depend on GenStoreTie.v. *)
-From Coq Require Import ZArith List Bool.
+From Coq Require Import ZArith List Bool String.
 Import ListNotations.
 Require Import TC.Store.GenStoreOps TC.Generated.StoreGen.
 Open Scope Z_scope.
@@ -52,3 +52,15 @@ Definition store_disagreements : list (nat * nat * option (Z * Z) * Z * Z * Z * 
 Definition cleans_ok : bool :=
   match gen_p_cleans, gen_a_cleans, gen_b_cleans with
   | (false, true, true), (false, true, true), (false, true, true) => true | _, _, _ => false end.
+
+(* sweep predicates and PeriodicStore's trigger: (store, expiry, now, next_cleanup, interval) on which they differ from the model *)
+Definition sweep_disagreements : list (nat * Z * Z * Z * Z) :=
+  flat_map (fun now => flat_map (fun d => flat_map (fun nx => flat_map (fun iv =>
+    let sf := fun f : string => if String.eqb f "next_cleanup" then nx else iv in
+    let ex := now + d in
+    (if Bool.eqb (gen_p_keep sf (Some ex) now) (now <? ex) then [] else [(0%nat, ex, now, nx, iv)]) ++
+    (if Bool.eqb (gen_a_keep sf (Some ex) now) (now <? ex) then [] else [(1%nat, ex, now, nx, iv)]) ++
+    (if Bool.eqb (gen_b_keep sf (Some ex) now) (now <? ex) then [] else [(2%nat, ex, now, nx, iv)]) ++
+    (if Bool.eqb (gen_p_due sf now) (nx <=? now) && (gen_p_next sf now =? now + iv) then [] else [(3%nat, ex, now, nx, iv)]))
+    [0; 1; 1000000000]) [now - 5; now - 1; now; now + 1; now + 5; now + 1000000000; now + 5000000000])
+    [-1000000000; -1; 0; 1; 2; 1000000000; 4999999999; 5000000000; 5000000001]) nows.
